@@ -932,7 +932,7 @@ def case_script(case):
 
 
 def campaign(ctx):
-    n = {"quick": 200, "thorough": 2000}[ctx.tier]
+    n = {"quick": 500, "thorough": 2000}[ctx.tier]
     runner.run_hypothesis(ctx, case_strategy(ctx.tier), runner.guarded(run_case), n)
 
 
